@@ -1320,6 +1320,13 @@ class Calculus:
         knotvector = ImmutableKnotVector(knotvector)
         matrix = Calculus.difference_matrix(knotvector)
         matrix = np.transpose(matrix)[1:]
+        # A knot of multiplicity degree+1 gives a null line, its knot is removed
+        degree = knotvector.degree
+        matrix = [
+            line
+            for i, line in enumerate(matrix, 1)
+            if knotvector[i + degree] != knotvector[i]
+        ]
         return totuple(matrix)
 
     @staticmethod
